@@ -245,9 +245,11 @@ def generate(rng, tier, focus):
     if focus == "C16":
         if rng.random() < (0.12 if tier == "quick" else 0.05):
             small = [s for s in SHIPPED if s not in ("DNA_AA.itp", "DNA_CG.itp")]
-            return {"focus": focus, "shipped": rng.choice(SHIPPED if tier == "thorough" or rng.random() < 0.1 else small)}
+            return {"focus": focus, "shipped": rng.choice(SHIPPED if tier == "thorough" or rng.random() < 0.1 else small),
+                    "via": rng.choice(["path", "path", "copy", "open_file"])}
         ops, fn = gen_itp(rng, tier, rich=True)
-        return {"focus": focus, "ops": ops, "final_newline": fn}
+        return {"focus": focus, "ops": ops, "final_newline": fn,
+                "via": rng.choice(["path", "path", "path", "copy", "copy_second", "open_file"])}
     ops, fn = gen_itp(rng, tier, rich=False)
     lim = rng.choice([None, None, None, 250, 400])
     return {"focus": focus, "ops": ops, "final_newline": fn, "reclimit": lim,
@@ -563,14 +565,28 @@ def execute_c16(trace, ctx):
     tops = {}
     with seam:
         step = "read A"
+        via = trace.get("via", "path")
         try:
-            fa = ItpFile(pa)
+            if via == "open_file":
+                with open(pa) as fh:
+                    fa = ItpFile(fh)
+                ctx.probe("read_from_open_file")
+            else:
+                fa = ItpFile(pa)
+            if via == "copy":
+                step = "copy A"
+                fa = fa.copy()             # the alternative constructor: what is written is the copy
+                ctx.probe("written_from_a_copy")
             step = "write B"
             fa.write(pb)
             del fa
             texts["B"] = _read_image(seam, pb)
             step = "read B"
             fb = ItpFile(pb)
+            if via == "copy_second":
+                step = "copy B"
+                fb = fb.copy()
+                ctx.probe("written_from_a_copy")
             step = "write C"
             fb.write(pc)
             del fb
